@@ -4,8 +4,10 @@ The correspondence runs compare behaviour on generated inputs; a keyword, direct
 ADDED to the library would not be generated and could go unnoticed. This scan extracts the
 table-like parts of the Rust sources (keyword lists in order, format directive and escape tables,
 unit multipliers, explanation and Display strings, the unsupported-construct lists) and the same
-tables from coq/Model/*.v, and reports every difference. It supports the tie between model and
-code; it decides no property."""
+tables from coq/Model/*.v, and reports every difference. An entry the SOURCE has and the model
+lacks makes the dependent checks report that the model is no longer tied to the source; the other
+direction (the scan does not find a model entry in the source: removed, or the source restructured)
+is left to the behavioural runs. It supports the tie between model and code; it decides no property."""
 import os, re
 
 REPO = "/repo/src"
@@ -161,40 +163,43 @@ def coq_compile_tables():
 
 
 def scan():
-    """returns a list of human-readable differences (empty when source and model tables agree)"""
+    """returns a list of (kind, human-readable difference, only_in_source): only_in_source is the
+    list of table entries the SOURCE has and the model lacks. Entries the model has and the scan
+    does not find in the source are reported with an empty third component: either the source was
+    restructured so that this scan no longer recognises the table (the behavioural runs, which
+    generate from the model's tables and from every literal of the sources, decide), or the entry
+    was removed (the behavioural runs then disagree at once)."""
     diffs = []
+
+    def cmp(kind, what, src, mdl, ordered=False):
+        src, mdl = list(src), list(mdl)
+        only_s = [x for x in src if x not in mdl]
+        only_m = [x for x in mdl if x not in src]
+        if only_s or only_m:
+            diffs.append((kind, "%s differ: only in source %s / only in model %s" % (what, only_s, only_m), only_s))
+
     rk, ck = rust_keywords(), coq_keywords()
     for k in ("test", "action", "global"):
-        if rk[k] != ck[k]:
-            diffs.append(("keywords", "%s keywords differ: source %s / model %s" % (k, [x for x in rk[k] if x not in ck[k]] or rk[k],
-                                                                        [x for x in ck[k] if x not in rk[k]] or ck[k])))
-    if sorted(set(rk["operators"])) != sorted(set(ck["operators"])):
-        diffs.append(("keywords", "operator words differ: source %s / model %s" % (rk["operators"], ck["operators"])))
+        cmp("keywords", k + " keywords", rk[k], ck[k])
+    cmp("keywords", "operator words", sorted(set(rk["operators"])), sorted(set(ck["operators"])))
     rf, cf = rust_format_tables(), coq_format_tables()
     for k in ("fields", "specials", "octal_digits"):
-        if rf[k] != cf[k]:
-            diffs.append(("format", "format %s differ: only in source %s / only in model %s" % (
-                k, [x for x in rf[k] if x not in cf[k]], [x for x in cf[k] if x not in rf[k]])))
+        cmp("format", "format " + k, rf[k], cf[k])
     re_, ce_ = rust_explain(), coq_explain()
-    if re_["explain"] != ce_["explain"]:
-        diffs.append(("messages", "explain() table differs: only in source %s / only in model %s" % (
-            [x for x in re_["explain"] if x not in ce_["explain"]], [x for x in ce_["explain"] if x not in re_["explain"]])))
+    cmp("messages", "explain() table", re_["explain"], ce_["explain"])
     ru, cu = rust_units(), coq_units()
     for k in ("mult", "secs"):
-        if ru[k] != cu[k]:
-            diffs.append(("units", "unit table %s differs: source %s / model %s" % (k, ru[k], cu[k])))
+        cmp("units", "unit table " + k, ru[k], cu[k])
     rc, cc = rust_compile_tables(), coq_compile_tables()
     for k in ("unsupported_fields", "unsupported_tests", "unsupported_actions"):
-        if rc[k] != cc[k]:
-            diffs.append(("unsupported", "%s differ: source %s / model %s" % (k, rc[k], cc[k])))
-    if sorted(set(rc["compile_error_display"])) != sorted(set(cc["compile_error_display"])):
-        diffs.append(("unsupported", "CompileError texts differ: source %s / model %s" % (rc["compile_error_display"], cc["compile_error_display"])))
+        cmp("unsupported", k, rc[k], cc[k])
+    cmp("unsupported", "CompileError texts", sorted(set(rc["compile_error_display"])), sorted(set(cc["compile_error_display"])))
     return diffs
 
 
 if __name__ == "__main__":
-    for k, d in scan():
-        print("DIFF[%s]:" % k, d)
+    for k, d, o in scan():
+        print("DIFF[%s]:" % k, d, "| only in source:", o)
     print("tables compared: keywords %s, fields %d, specials %d, explain %d" % (
         {k: len(v) for k, v in rust_keywords().items()}, len(rust_format_tables()["fields"]),
         len(rust_format_tables()["specials"]), len(rust_explain()["explain"])))
